@@ -34,6 +34,11 @@ func pathKey(d string) string {
 	return p
 }
 
+var parenRe = regexp.MustCompile(`\([^)]*\)`)
+
+// coarse drops the proxy / plugin type from a level signature (stable violation keys).
+func coarse(sig string) string { return parenRe.ReplaceAllString(sig, "") }
+
 func short(s string) string {
 	if len(s) > 1500 {
 		return s[:1500] + "…"
@@ -150,15 +155,15 @@ func formatCase(c *h.Case) {
 		levelSeen(s.sig, f)
 		if err == nil {
 			c.Ev("doc", "format", f, "text", text)
-			c.Violation("strict-accepts-unknown-field-at-"+s.sig, "strict mode accepts the unknown field %q at level %s in %s:\n%s", name, s.sig, f, short(text))
+			c.Violation("strict-accepts-unknown-field-at-"+coarse(s.sig), "strict mode accepts the unknown field %q at level %s in %s:\n%s", name, s.sig, f, short(text))
 		}
 		got, err := load(text, false)
 		if err != nil {
 			c.Ev("doc", "format", f, "text", text)
-			c.Violation("nonstrict-rejects-unknown-field-at-"+s.sig, "non-strict mode rejects the unknown field %q at level %s in %s: %v", name, s.sig, f, err)
+			c.Violation("nonstrict-rejects-unknown-field-at-"+coarse(s.sig), "non-strict mode rejects the unknown field %q at level %s in %s: %v", name, s.sig, f, err)
 		} else if d := diffValues(expected, got); len(d) > 0 {
 			c.Ev("doc", "format", f, "text", text)
-			c.Violation("nonstrict-unknown-field-changes-result-at-"+s.sig, "an unknown field %q at level %s (%s, non-strict) changes the loaded structure: %s", name, s.sig, f, strings.Join(d, "; "))
+			c.Violation("nonstrict-unknown-field-changes-result-at-"+coarse(s.sig), "an unknown field %q at level %s (%s, non-strict) changes the loaded structure: %s", name, s.sig, f, strings.Join(d, "; "))
 		}
 	}
 
@@ -328,7 +333,7 @@ func walkSites(o *obj, sig, lvl string, ch map[string]map[string]bool, out *[]si
 			if e.K == "plugin" {
 				if ty, ok := t.get("type"); ok {
 					if pc := chPlugin[ty.(string)]; pc != nil {
-						walkSites(t, sig+".plugin("+ty.(string)+")", "", pc, out)
+						walkSites(t, coarse(sig)+".plugin("+ty.(string)+")", "", pc, out)
 					}
 				}
 				continue
